@@ -18,7 +18,10 @@
 package client
 
 import (
+	"bytes"
 	"context"
+	"crypto"
+	"crypto/sha256"
 	"encoding/base64"
 	"fmt"
 	"net/http"
@@ -27,6 +30,7 @@ import (
 	ct "github.com/google/certificate-transparency-go"
 	"github.com/google/certificate-transparency-go/jsonclient"
 	"github.com/google/certificate-transparency-go/tls"
+	"github.com/google/certificate-transparency-go/x509"
 )
 
 // LogClient represents a client for a given CT Log instance
@@ -96,6 +100,23 @@ func (c *LogClient) addChainWithRetry(ctx context.Context, ctype ct.LogEntryType
 
 	var logID ct.LogID
 	copy(logID.KeyID[:], resp.ID)
+	if c.Verifier != nil {
+		// The log ID is not covered by the SCT signature, but it is by definition
+		// the hash of the log's public key, which we hold: never hand back an SCT
+		// that names another log (or a truncated ID).
+		keyID, err := logIDForKey(c.Verifier.PubKey)
+		if err != nil {
+			return nil, RspError{Err: err, StatusCode: httpRsp.StatusCode, Body: body}
+		}
+		if len(resp.ID) != 0 && !bytes.Equal(resp.ID, keyID[:]) {
+			return nil, RspError{
+				Err:        fmt.Errorf("id %x in response is not the hash of the log's public key (%x)", resp.ID, keyID),
+				StatusCode: httpRsp.StatusCode,
+				Body:       body,
+			}
+		}
+		logID.KeyID = keyID
+	}
 	sct := &ct.SignedCertificateTimestamp{
 		SCTVersion: resp.SCTVersion,
 		LogID:      logID,
@@ -107,6 +128,16 @@ func (c *LogClient) addChainWithRetry(ctx context.Context, ctype ct.LogEntryType
 		return nil, RspError{Err: err, StatusCode: httpRsp.StatusCode, Body: body}
 	}
 	return sct, nil
+}
+
+// logIDForKey returns the RFC 6962 log ID of a log's public key: the SHA-256
+// hash of its DER-encoded SubjectPublicKeyInfo.
+func logIDForKey(pubKey crypto.PublicKey) ([sha256.Size]byte, error) {
+	der, err := x509.MarshalPKIXPublicKey(pubKey)
+	if err != nil {
+		return [sha256.Size]byte{}, fmt.Errorf("failed to marshal the log's public key: %v", err)
+	}
+	return sha256.Sum256(der), nil
 }
 
 // AddChain adds the (DER represented) X509 |chain| to the log.
